@@ -12,7 +12,7 @@ import (
 func init() {
 	register("C20", &ruleSet{
 		run:    runC20,
-		floors: map[string]int{"O1": 8, "O2": 5, "O3": 8, "O4": 8, "O5": 10},
+		floors: map[string]int{"O1": 8, "O2": 4, "O3": 8, "O4": 8, "O5": 10},
 		explain: "Decides structurally: (O1) CommonMetricSampler.Sample emits, on every path, the rtt parameter once to the listener registered under the RTT metric, the " +
 			"in-flight parameter once to the one registered under the in-flight metric, and 1 to the drop counter if and only if the drop flag's true edge was taken; every " +
 			"limit implementation owning a sampler calls Sample exactly once on every OnSample path with its own three parameters; (O2) every strategy emission carries the " +
